@@ -368,10 +368,10 @@ func (ex *Exec) execLoopInv(s ast.Stmt, cond ast.Expr, body *ast.BlockStmt, post
 		}
 		if c.Kind == "use" {
 			useExprs = append(useExprs, e)
-			if ex.prog.Axioms[fi.Pkg.Name+"."+c.ID] {
+			if ex.prog.Axioms[lemmaKey(fi.Pkg.Name, c.ID)] {
 				ex.assumptions["AXIOM "+fi.Pkg.Name+"."+c.ID+" (assumed, see the contract file)"] = true
 			} else {
-				ex.usedContracts["lemma "+fi.Pkg.Name+"."+c.ID] = true
+				ex.usedContracts["lemma "+lemmaKey(fi.Pkg.Name, c.ID)] = true
 			}
 			continue
 		}
